@@ -97,6 +97,7 @@ func (c *c10) aloneRun(call Call) Outcome {
 }
 
 func RunC10(env *sim.Env) {
+	defer DropIfTooExpensive(env)
 	t := env.Tape
 	opts := gen.SwarmOptions(t)
 	world := gen.GenWorld(t, opts)
@@ -261,9 +262,11 @@ func RunC10(env *sim.Env) {
 		if t.Choose(2) == 1 {
 			d = data2
 		}
+		stepsBefore := Steps()
 		base := c.aloneRun(Call{Tmpl: m, Data: d, NilVars: nilVars})
+		costBase := Steps() - stepsBefore
 		nProbe, nWrite := base.Probes.Calls, base.W.Writes
-		if nProbe > 2000 || nWrite > 5000 {
+		if nProbe > 2000 || nWrite > 5000 || costBase > MaxStepsPerExecution {
 			env.Stat("counters:templates_skipped_too_large", 1)
 			continue
 		}
